@@ -105,7 +105,9 @@ def gen_desc(verif_seed: int, i: int, tier: str = "quick") -> dict:
         "universe": udesc,
         "config": cfg,
         "behaviour": behaviour,
-        "faults": [{"kind": "slow_disk", **stall}] if stall else [],
+        "faults": ([{"kind": "slow_disk", **stall}] if stall else [])
+        + ([{"kind": "disk_full", "after_writes": [3, 40, 400, 3000][universe_hash("df", rs) % 4]}]
+           if universe_hash("diskfull", rs) % 7 == 0 and ("vcr" in formats or "har" in formats) else []),
         "schedule": gen.gen_schedule(rng, fault_free=rng.random() < 0.25),
     }
 
@@ -128,15 +130,17 @@ ASSUMPTIONS = [
     "content hostility is limited to the peer's repertoire (sim/peer.py) and Hypothesis-generated request data",
     "with sanitisation on, a recorded '[Filtered]' value is accepted in place of the wire value",
     "text bodies are compared for equality only when the wire bytes are valid UTF-8 and the entry says utf-8",
-    "no disk errors are injected; a stalled writer is allowed to finish (as interpreter exit would)",
+    "a stalled writer is allowed to finish (as interpreter exit would); under the disk-full fault (cassette writes fail with ENOSPC from "
+    "the n-th write on) the cassette files themselves are not judged, but the run must still terminate, must not abort, and the JUnit "
+    "report must still be written",
 ]
-EXPECTED_PROBES = ["vcr_entries", "har_entries", "junit_cases", "no_response_exchanges", "join_timeout", "slow_disk", "checkless_exchanges"]
+EXPECTED_PROBES = ["vcr_entries", "har_entries", "junit_cases", "no_response_exchanges", "join_timeout", "slow_disk", "disk_full", "checkless_exchanges"]
 
 
 def fired_faults(desc: dict, res: dict) -> dict:
     st = res.get("stats") or {}
     out = dict(st.get("peer_fired") or {})
-    for k in ("vcr_entries", "har_entries", "junit_cases", "no_response_exchanges", "slow_disk", "checkless_exchanges"):
+    for k in ("vcr_entries", "har_entries", "junit_cases", "no_response_exchanges", "slow_disk", "disk_full", "checkless_exchanges"):
         if st.get(k):
             out[k] = st[k]
     jt = (res.get("sched") or {}).get("probes", {}).get("join_timeout")
@@ -162,7 +166,11 @@ class C16Profile(Profile):
 
         W._register_sim_marker()
         stall = next((f for f in ctx.desc.get("faults", []) if f["kind"] == "slow_disk"), None)
+        full = next((f for f in ctx.desc.get("faults", []) if f["kind"] == "disk_full"), None)
         ctx.extra["slow_disk_fired"] = 0
+        ctx.extra["disk_full_fired"] = 0
+        if stall is None and full is not None:
+            stall = {"p": 0.0, "seconds": 0.0}
         if stall is not None:
             import time
 
@@ -172,10 +180,18 @@ class C16Profile(Profile):
             orig_open = click.utils.LazyFile.open
 
             class SlowFile:
-                def __init__(self, f) -> None:
+                def __init__(self, f, name: str = "") -> None:
                     self._f = f
+                    self._writes = 0
+                    self._cassette = str(name).endswith(("vcr.yaml", "har.json"))
 
                 def write(self, data):
+                    if full is not None and self._cassette:
+                        # the disk fills up: from the n-th write on, the cassette files cannot be written any more
+                        self._writes += 1
+                        if self._writes >= full["after_writes"]:
+                            ctx.extra["disk_full_fired"] += 1
+                            raise OSError(28, "No space left on device")
                     if rng.random() < stall["p"]:
                         ctx.extra["slow_disk_fired"] += 1
                         time.sleep(stall["seconds"])  # virtual: a schedule point for the writer thread
@@ -188,7 +204,7 @@ class C16Profile(Profile):
                 f = orig_open(self)
                 if isinstance(f, SlowFile):
                     return f
-                w = SlowFile(f)
+                w = SlowFile(f, getattr(self, "name", ""))
                 self._f = w
                 return w
 
@@ -203,4 +219,5 @@ class C16Profile(Profile):
         st = dict(ctx.extra.get("c16_stats") or {})
         st["peer_fired"] = dict(ctx.peer.fired)
         st["slow_disk"] = ctx.extra.get("slow_disk_fired", 0)
+        st["disk_full"] = ctx.extra.get("disk_full_fired", 0)
         return st
